@@ -14,8 +14,8 @@ import os, re, sys, random, collections
 import common as C
 import c18run as R
 
-TARGETS = ["Gen/GuardTables.vo", "Model/Outcome.vo", "Model/ReaderGuards.vo", "Spec/RobustSpec.vo", "Model/GuardCases.vo",
-           "Proofs/C18/SpecLink.vo", "Proofs/C18/Srt.vo", "Proofs/C18/Vtt.vo", "Proofs/C18/Scc.vo", "Proofs/C18/Stl.vo", "Proofs/C18/Statements.vo"]
+TARGETS = ["Gen/GuardTables.vo", "Model/Outcome.vo", "Model/ReaderGuards.vo", "Spec/RobustSpec.vo", "Model/GuardCases.vo", "Model/GuardCueCases.vo",
+           "Proofs/C18/SpecLink.vo", "Proofs/C18/Srt.vo", "Proofs/C18/Vtt.vo", "Proofs/C18/Scc.vo", "Proofs/C18/Stl.vo", "Proofs/C18/Statements.vo", "Proofs/C18/CueText.vo"]
 
 M_CODE = {"ok": 0, "XmlParseError": 10, "ValueError": 11, "StructError": 12, "UnicodeDecodeError": 13, "AttributeError": 20, "TypeError": 21,
           "IndexError": 22, "KeyError": 23, "UnboundLocalError": 24, "AssertionError": 25, "RecursionError": 26, "ZeroDivisionError": 27,
@@ -26,7 +26,8 @@ S_CODE = {"XmlParseError": 1, "UnicodeDecodeError": 2, "StructError": 3, "ValueE
 
 def build_and_prove(run, thorough):
     import gen_tables
-    changed, errors = gen_tables.generate({"GuardTables"})
+    # VttTables: tables of C11's model of the WebVTT cue-text parser, which Model/GuardCueCases.v evaluates (read-only use)
+    changed, errors = gen_tables.generate({"GuardTables", "VttTables"})
     if errors:
         run.violation("table translator failed closed: " + "; ".join(errors), dict(kind="translator", errors=errors), False)
         return False
@@ -128,6 +129,39 @@ class Shards:
     def count(self): return sum(len(i) for i in self.index) + len(self.ids)
 
 
+def cue_text_predictions(run, texts, limit=150000):
+    """{cue text: (class code C11's model of _parse_cue_text computes for it, the text has a ruby start tag)}, evaluated in Coq
+    (Model/GuardCueCases.v cue_report).  Class codes as in M_CODE: 0 returns, 21 TypeError, 29 RuntimeError.  A text that could not be
+    evaluated is missing from the result (the caller fails closed)."""
+    texts = [t for t in dict.fromkeys(texts) if not any(0xD800 <= ord(c) <= 0xDFFF for c in t)]
+    C.clean_cases("Cases_C18_cue_")
+    files = []; cur = []; size = 0
+    def flush():
+        nonlocal cur, size
+        if not cur: return
+        p = f"{C.GEN}/Cases_C18_cue_{len(files)}.v"
+        open(p, "w").write("From TT Require Import Base.Prelude Model.GuardCueCases.\nDefinition cs : list text := [\n" + ";\n".join(tx(t) for t in cur)
+                           + "].\nEval vm_compute in map cue_report cs.\n")
+        files.append((p, cur)); cur = []; size = 0
+    for t in texts:
+        n = 4 * len(t) + 4
+        if size + n > limit and cur: flush()
+        cur.append(t); size += n
+    flush()
+    res = C.coqc_many([p for p, _ in files], 900)
+    out = {}; failed = []
+    for p, ts in files:
+        rc, o = res[p]
+        m = re.search(r"=\s*\[([^\]]*)\]\s*:\s*list Z", " ".join(o.split()))
+        vals = [int(x) for x in re.findall(r"-?\d+", m.group(1))] if (rc == 0 and m) else None
+        if vals is None or len(vals) != len(ts):
+            if not (rc == 0 and len(ts) == 0): failed.append(f"{os.path.basename(p)}: {o[-300:]}")
+            continue
+        for t, v in zip(ts, vals): out[t] = (v // 2, bool(v % 2))
+    C.clean_cases("Cases_C18_cue_")
+    return out, failed
+
+
 def spec_row(i, r, failed):
     """observation of one run in the integer codes of Spec/RobustSpec.v: (id, reader code, downstream codes, harness verdict)"""
     if r["outcome"] == "doc": rc = 0
@@ -165,6 +199,15 @@ def correspondence(run, tasks, results, spec_rows, thorough):
     from ttconv.scc.line import SccLine
     from ttconv.scc.word import SccWord
 
+    long_lines = [0]
+    def srt_flags(line):
+        """blank, counter, time code found, int() of one of its hour fields raises ValueError (evaluated, not computed from the length)"""
+        m = sr._TIMECODE_RE.search(line); too_long = 0
+        if m is not None:
+            try: int(m.group("begin_h")); int(m.group("end_h"))
+            except ValueError: too_long = 1
+        return [int(bool(sr._EMPTY_RE.fullmatch(line))), int(sr._COUNTER_RE.search(line) is not None), int(m is not None), too_long]
+
     def vtt_flags(line):
         ps = line.split()
         cue = len(ps) >= 3 and vr.vtt_timestamp_to_secs(ps[0]) is not None and vr.vtt_timestamp_to_secs(ps[2]) is not None
@@ -198,11 +241,14 @@ def correspondence(run, tasks, results, spec_rows, thorough):
                 budget[fmt] -= len(lit); sh[fmt].add(lit, t["i"]); used[fmt] += 1
                 for line in content.split("\n")[:40]:
                     line = line + "\n"
-                    if line in seen_lines[fmt] or len(line) > 300: continue
+                    if line in seen_lines[fmt]: continue
+                    if len(line) > 300:
+                        # long lines only where the length matters: SRT time-code lines whose hour fields approach int()'s digit limit
+                        if fmt != "srt" or len(line) > 6000 or long_lines[0] >= 24 or sr._TIMECODE_RE.search(line) is None: continue
+                        long_lines[0] += 1
                     seen_lines[fmt].add(line)
                     if fmt == "srt":
-                        fl3 = [int(bool(sr._EMPTY_RE.fullmatch(line))), int(sr._COUNTER_RE.search(line) is not None), int(sr._TIMECODE_RE.search(line) is not None)]
-                        sh["srtview"].add(f"({tx(line)}, {zl(fl3)})", line)
+                        sh["srtview"].add(f"({tx(line)}, {zl(srt_flags(line))})", line)
                     else:
                         sh["vttview"].add(f"({tx(line)}, {zl(vtt_flags(line))})", line)
             for rec in tr:
